@@ -65,6 +65,7 @@ package pm
 // recursiveVM: no index, slice or nil panic for ANY subject, program satisfying Inv_prog, position and capture state;
 // the only Go panics that can leave it are *pm.Error values (pattern errors, turned into a Lua error by Find's handler).
 //@ func recursiveVM [C14]
+//@ logged
 //@ requires Inv_prog(insts) && 0 <= pc && pc < len(insts) && 0 <= sp && 0 <= recLevel && offset(src) == 0 && offset(ms) == 0
 //@ requires len(ms) > 0 ==> Inv_md(ms[0])
 //@ may-panic type Error
@@ -104,6 +105,6 @@ package pm
 //@ assumes  offset(matches) == 0 && (limit > 0 ==> len(matches) <= limit)
 //@ let@"ok, nsp, ms := recursiveVM" sp0 = sp
 //@ let@"ok, nsp, ms := recursiveVM" n0 = len(matches)
-//@ assert@"if len(matches) == limit || pat.MustHead" sp == ite(ok && sp0 + 1 < nsp, nsp, sp0 + 1) && len(matches) == n0 + ite(ok, 1, 0) && (ok ==> matches[n0] == ms)
+//@ assert@"if len(matches) == limit || pat.MustHead" callfn(ncalls() - 1) == fnid("pm.recursiveVM") && callargInt(ncalls() - 1, 3) == sp0 && callargInt(ncalls() - 1, 2) == 0 && sp == ite(callresBool(ncalls() - 1, 0) && sp0 + 1 < callresInt(ncalls() - 1, 1), callresInt(ncalls() - 1, 1), sp0 + 1) && len(matches) == n0 + ite(callresBool(ncalls() - 1, 0), 1, 0) && (callresBool(ncalls() - 1, 0) ==> matches[n0] == ms)
 //@ modifies type MatchData.captures, elems(uint32), type scanner.*, type scannerState.*
 //@ loop 1 invariant 0 <= sp && len(insts) >= 1 && Inv_prog(insts) && pat != nil && offset(matches) == 0 && (arrid(matches) == 0 || fresh(matches))
